@@ -19,7 +19,7 @@ fn walk(dir: &Path, out: &mut Vec<std::path::PathBuf>) {
 
 pub fn integration_queries() -> Vec<(String, String)> {
     let mut files = vec![];
-    walk(Path::new("/repo/prqlc/prqlc/tests/integration/queries"), &mut files);
+    walk(Path::new(&format!("{}/prqlc/prqlc/tests/integration/queries", crate::report::repo_root())), &mut files);
     files
         .into_iter()
         .filter(|p| p.extension().map(|e| e == "prql").unwrap_or(false))
@@ -29,7 +29,8 @@ pub fn integration_queries() -> Vec<(String, String)> {
 
 pub fn book_examples() -> Vec<(String, String)> {
     let mut files = vec![];
-    walk(Path::new("/repo/web/book/src"), &mut files);
+    let book = format!("{}/web/book/src", crate::report::repo_root());
+    walk(Path::new(&book), &mut files);
     let mut out = vec![];
     for f in files.into_iter().filter(|p| p.extension().map(|e| e == "md").unwrap_or(false)) {
         let Ok(txt) = std::fs::read_to_string(&f) else { continue };
@@ -44,7 +45,7 @@ pub fn book_examples() -> Vec<(String, String)> {
                 }
                 Some(buf) => {
                     if line.trim_start().starts_with("```") {
-                        let name = format!("book/{}#{}", f.strip_prefix("/repo/web/book/src").unwrap_or(&f).display(), k);
+                        let name = format!("book/{}#{}", f.strip_prefix(&book).unwrap_or(&f).display(), k);
                         k += 1;
                         out.push((name, std::mem::take(buf)));
                         cur = None;
